@@ -23,6 +23,12 @@ func vC01(sh *vShape) {
 	vAssert(back.Type == kind, "C01: decoded type equals original")
 	vAssert(back.Tag == tag, "C01: decoded tag equals original")
 	vAssert(vMsgEq(msg, back.Message), "C01: decoded message equals original field by field")
+	// the decoded message is a value of its own: it stays equal to the original
+	// when the caller reuses the buffer it was decoded from
+	for i := range got {
+		got[i] ^= 0xFF
+	}
+	vAssert(vMsgEq(msg, back.Message), "C01: decoded message equals original also after the input buffer was reused")
 	if d, ok := back.Message.(MessageRstat); ok {
 		vAssert(d.Stat.ModTime.Location().String() == "UTC", "C01: decoded time is UTC")
 	}
